@@ -2,6 +2,7 @@
   C11 — Authenticator data is parsed exactly and completely.
 -/
 import Proofs.AuthData
+import Proofs.AuthDataRT
 import Proofs.Monad
 import Props.C10
 namespace Webauthn.Props.C11
@@ -103,5 +104,58 @@ theorem leftover_plain {val : Bytes} {ad : AuthData} (h : parseAuthData val = .o
       rw [← e2] at hlen
       simp at hlen
       omega
+
+/-! ### exactness on the canonical layout (closed form, every field content and length) -/
+
+/-- **exact**: authenticator data laid out per the specification with canonically encoded CBOR —
+any 32-byte RP ID hash, any flags byte, any counter below 2^32, attested credential data (any
+16-byte AAGUID, any credential id shorter than 65536 bytes, any well-formed CBOR key) present iff
+AT is set, any well-formed CBOR extensions present iff ED is set — parses to exactly those fields.
+`notPatched` excludes the one 17-byte Ed25519 key prefix the parser deliberately rewrites. -/
+theorem exact (rp : Bytes) (fb : UInt8) (ctr : Nat) (att : Option (Bytes × Bytes × Cbor)) (ext : Option Cbor)
+    (hrp : rp.length = 32) (hctr : ctr < 2 ^ 32)
+    (hat : (parseFlags fb).att = att.isSome) (hed : (parseFlags fb).ed = ext.isSome)
+    (haw : attWF att) (hew : extWF ext) (hnp : notPatched att ext) :
+    parseAuthData (encodeAuthData rp fb ctr att ext) =
+      .ok { rpIdHash := rp, flags := parseFlags fb, signCount := ctr, attested := attestedOf att,
+            extensions := ext.map Cbor.enc } :=
+  parseAuthData_encode rp fb ctr att ext hrp hctr hat hed haw hew hnp
+
+/-- **suffix**: the same layout followed by any non-empty suffix is refused with
+InvalidAuthenticatorDataStructure, whichever optional parts are present -/
+theorem suffix_rejected (rp : Bytes) (fb : UInt8) (ctr : Nat) (att : Option (Bytes × Bytes × Cbor)) (ext : Option Cbor)
+    (sfx : Bytes) (hs : sfx ≠ []) (hrp : rp.length = 32) (hctr : ctr < 2 ^ 32)
+    (hat : (parseFlags fb).att = att.isSome) (hed : (parseFlags fb).ed = ext.isSome)
+    (haw : attWF att) (hew : extWF ext) (hnp : notPatchedS att ext sfx) :
+    parseAuthData (encodeAuthData rp fb ctr att ext ++ sfx) =
+      .error (libErr .InvalidAuthenticatorDataStructure "authdata.leftover") := by
+  have := parseAuthData_encode_sfx rp fb ctr att ext sfx hrp hctr hat hed haw hew hnp
+  rwa [if_neg hs] at this
+
+/-- non-vacuity: a concrete attested + extensions layout meets every hypothesis of `exact` -/
+example :
+    let att : Option (Bytes × Bytes × Cbor) :=
+      some (List.replicate 16 1, [1, 2, 3], .map [(.uint 1, .uint 2), (.uint 3, .nint 6)])
+    let ext : Option Cbor := some (.map [(.text [0x61], .bool true)])
+    (List.replicate 32 (7 : UInt8)).length = 32 ∧ (parseFlags 0xC5).att = att.isSome ∧ (parseFlags 0xC5).ed = ext.isSome ∧
+      attWF att ∧ extWF ext ∧ notPatched att ext := by
+  refine ⟨by decide, by decide, by decide, ?_, ?_, ?_⟩
+  · intro a i k h
+    cases h
+    refine ⟨by decide, by decide, ?_⟩
+    simp [Cbor.WF, Cbor.WFPairs, Cbor.isScalarKey, Cbor.keysDistinct, Cbor.keyEq, Cbor.asInt?]
+  · intro e h
+    cases h
+    simp [Cbor.WF, Cbor.WFPairs, Cbor.isScalarKey, Cbor.keysDistinct, validUtf8]
+    decide
+  · intro a i k h
+    cases h
+    decide
+
+/-- why `notPatched` is needed: the parser rewrites the known-bad 3-entry Ed25519 map header to a
+4-entry one, so for *that* key prefix the bytes returned are not the bytes sent -/
+example : (parseAttested (List.replicate 37 0 ++ List.replicate 16 0 ++ [0, 0] ++ badEddsaCbor ++ [0x21, 0x41, 0x09]) 37).toOption.map
+    (fun r => r.1.publicKey.take 1) = some [0xA4] := by
+  decide +kernel
 
 end Webauthn.Props.C11
